@@ -39,6 +39,27 @@ pub fn variant_text(owned: bool) -> &'static str {
     }
 }
 
+/// Guard ids a recorded observation line (`o ...`) says were created.
+fn created_in_obs_text(o: &str) -> Vec<Gid> {
+    let t: Vec<&str> = o.split_whitespace().collect();
+    match t.first().copied() {
+        Some("guard") | Some("item") => t.get(1).and_then(|x| x.parse().ok()).into_iter().collect(),
+        Some("offered") | Some("expired") => t
+            .get(1)
+            .map(|l| l.split(',').filter_map(|e| e.split(':').next().and_then(|g| g.parse().ok())).collect())
+            .unwrap_or_default(),
+        _ => Vec::new(),
+    }
+}
+
+fn created_in_obs(o: &Obs) -> Vec<Gid> {
+    match o {
+        Obs::Guard(g, _, _) | Obs::Item(g, _, _) => vec![*g],
+        Obs::Offered(l) | Obs::Expired(l) => l.iter().map(|x| x.0).collect(),
+        _ => Vec::new(),
+    }
+}
+
 /// Execute the labels found in `text` (lines starting with `l `; everything else is ignored).
 ///
 /// * Agent ids of the file are mapped to the ids the harness assigns (they differ only if
@@ -47,6 +68,10 @@ pub fn variant_text(owned: bool) -> &'static str {
 ///   produce several labels; they are printed when the segment runs and the following input
 ///   labels that merely name them are consumed silently.
 /// * Labels that are not enabled are skipped with a `#` comment.
+/// * Guard ids: if the file carries `o` lines (a recorded trace), the guards each label created there are
+///   matched, in order, with the guards the same label creates now, and later `gop` / `drop` labels are
+///   translated accordingly -- so a trace from which labels were removed (shrinking) still addresses the
+///   guards it meant.
 /// * Unlike the explorer, replay goes on after a monitor hit (hits are shown as comments).
 pub fn replay(text: &str, id: &str, backend: Backend, owned: bool, note: &str) -> ReplayResult {
     let mut ex = Executor::new(backend, owned);
@@ -70,9 +95,22 @@ pub fn replay(text: &str, id: &str, backend: Backend, owned: bool, note: &str) -
         }
     };
 
+    // (label text, guard ids the recorded trace says this label created)
+    let mut items: Vec<(String, Vec<Gid>)> = Vec::new();
     for line in text.lines() {
         let line = line.trim();
-        let Some(rest) = line.strip_prefix("l ") else { continue };
+        if let Some(rest) = line.strip_prefix("l ") {
+            items.push((rest.to_string(), Vec::new()));
+        } else if let Some(rest) = line.strip_prefix("o ") {
+            if let Some(last) = items.last_mut() {
+                last.1.extend(created_in_obs_text(rest));
+            }
+        }
+    }
+    let mut gid_map: HashMap<Gid, Gid> = HashMap::new();
+    for (rest, file_created) in &items {
+        let rest = rest.as_str();
+        let mut now_created: Vec<Gid> = Vec::new();
         let label = match Label::parse(rest) {
             Ok(l) => l,
             Err(e) => {
@@ -85,11 +123,15 @@ pub fn replay(text: &str, id: &str, backend: Backend, owned: bool, note: &str) -
         let action = match &label {
             Label::Start(a, c) => {
                 aid_map.insert(*a, ex.agents.len());
-                Some(Action::Start(*c))
+                let c = match c {
+                    Call::Drop(g) => Call::Drop(gid_map.get(g).copied().unwrap_or(*g)),
+                    other => *other,
+                };
+                Some(Action::Start(c))
             }
             Label::Resume(a, _) => Some(Action::Resume(map(a, &aid_map))),
             Label::Cancel(a) => Some(Action::Cancel(map(a, &aid_map))),
-            Label::Gop(g, op) => Some(Action::Gop(*g, *op)),
+            Label::Gop(g, op) => Some(Action::Gop(gid_map.get(g).copied().unwrap_or(*g), *op)),
             Label::CbRet(a, r, h) => Some(Action::CbRet(map(a, &aid_map), *r, *h)),
             Label::Tick(d) => Some(Action::Tick(*d)),
             Label::Consume(_) => Some(Action::Consume),
@@ -103,6 +145,9 @@ pub fn replay(text: &str, id: &str, backend: Backend, owned: bool, note: &str) -
                         let q = produced.entry(a).or_default();
                         q.clear();
                         q.extend(seg.steps.iter().skip(1).map(|s| s.0.clone()));
+                    }
+                    for (_, o) in &seg.steps {
+                        now_created.extend(created_in_obs(o));
                     }
                     let lines = seg.lines(backend);
                     emit(&ex, &mut out, lines, &mut seen_viol);
@@ -141,6 +186,9 @@ pub fn replay(text: &str, id: &str, backend: Backend, owned: bool, note: &str) -
                     match ex.apply(&Action::StreamStep(a)) {
                         Ok(Some(seg)) => {
                             produced.entry(a).or_default().extend(seg.steps.iter().map(|s| s.0.clone()));
+                            for (_, o) in &seg.steps {
+                                now_created.extend(created_in_obs(o));
+                            }
                             let lines = seg.lines(backend);
                             emit(&ex, &mut out, lines, &mut seen_viol);
                         }
@@ -153,6 +201,9 @@ pub fn replay(text: &str, id: &str, backend: Backend, owned: bool, note: &str) -
                     }
                 }
             }
+        }
+        for (f, n) in file_created.iter().zip(now_created.iter()) {
+            gid_map.insert(*f, *n);
         }
     }
     let violations = ex.violations.clone();
